@@ -23,6 +23,9 @@ CONSTANTS
   KeepEmptyTail = FALSE
   DropPartialLast = FALSE
   PerChunkLines = FALSE
+  BufferShortcut = FALSE
 SPECIFICATION BSpec
 INVARIANT StreamInvariant
+INVARIANT ReadOnInvariant
+INVARIANT PositionInvariant
 CHECK_DEADLOCK FALSE
